@@ -176,6 +176,19 @@ Theorem C03_requests_sound :
 Proof. exact get_many_sound. Qed.
 Print Assumptions C03_requests_sound.
 
+(* Histories.  The stores of the model are stateless between calls -- the only state is the
+   world -- so every call verifies what it reads NOW: for any sequence of requests interleaved
+   with ARBITRARY changes of the world (an object damaged after it was read and verified,
+   keeping its size and timestamps or not; restored; replaced ...), every answer is verified.
+   A store that remembers "this file was fine last time" is not a refinement of this model. *)
+Theorem C03_history_sound :
+  forall (H : bytes -> id) (zcomp : bytes -> bytes) (zdecomp : bytes -> option bytes)
+         (s : stack) (steps : list ((world -> world) * id)) (w : world) (rs : list (res chunk)) (w' : world),
+  verifying s = true -> get_history H zcomp zdecomp s steps w = (rs, w') ->
+  Forall2 (fun st r => forall c, r = Ok c -> exists b, data_of zdecomp c = Some b /\ H b = snd st) steps rs.
+Proof. exact get_history_sound. Qed.
+Print Assumptions C03_history_sound.
+
 (* Chunks are VALUES in the model: [data_of] takes no world, so what a returned chunk yields
    cannot change when the store is used again.  That is the contract every backend has to
    provide in the code -- a returned *Chunk must not alias memory that a later call into the
@@ -370,6 +383,15 @@ Example C03_ex_plain_body :
   /\ match proto_answer_trust_flags ex_H ex_zd 6%N 6%N 0%N [1; 2; 4]%N with
      | Ok c => data_of ex_zd c = Some [1; 2; 4]%N | Err _ => False end.
 Proof. vm_compute. repeat split; reflexivity. Qed.
+(* read chunk 6, then its object is replaced by chunk 7's (same length), read again, restored, read *)
+Example C03_ex_history :
+  let good (_ : world) := ex_world (fun _ _ => Some [7; 1; 2; 3]%N) in
+  let bad (_ : world) := ex_world (fun _ _ => Some [7; 1; 2; 4]%N) in
+  map (fun r => match r with Ok c => Ok (data_of ex_zd c) | Err e => Err e end)
+      (fst (get_history ex_H ex_zc ex_zd (Cache (ex_leaf 1 false) (WLeaf 0 (ex_lo false)))
+              [(good, 6%N); (bad, 6%N); (good, 6%N)] (ex_world (fun _ _ => None))))
+  = [Ok (Some [1; 2; 3]%N); Err EInvalid; Ok (Some [1; 2; 3]%N)].
+Proof. vm_compute. reflexivity. Qed.
 (* the premise of C03_pre898d634_copy_refuted is met by a verifying stack: RemoteSSH in front of
    `desync pull` over a store with a flipped object; index [(6, 3)] describing [1;2;3] *)
 Example C03_ex_eof_truncation :
